@@ -124,6 +124,10 @@ def stress_docs():
     # JSON-RPC ids built from method name and path: a space in either makes two ids collide
     res.append('JSIGHT 0.3\nURL "/x /y"\n  Protocol json-rpc-2.0\n  Method "a"\n    Result\n    {}\nURL /y\n  Protocol json-rpc-2.0\n  Method "a /x"\n    Result\n    {}\n')
     res.append('JSIGHT 0.3\nURL "/p q"\n  GET\n    200 any\nGET "/p q"\n  200 any\n')
+    # two paths (type names, tag names) that differ only in a byte that is not valid UTF-8: JSON cannot carry the byte,
+    # both become U+FFFD ("\xff" in these texts stands for the byte: the file is written in Latin-1)
+    res.append('JSIGHT 0.3\nGET /a\xff\n  200 any\nGET /a\xfe\n  200 any\n')
+    res.append('JSIGHT 0.3\nTYPE @t\xff any\nTYPE @t\xfe any\nGET /ok\n  200 @t\xff\n')
     # tags with descriptions, declared before and after the interactions that carry them, at every level
     for order in (0, 1):
         tags = 'TAG @t1 // first\n  Description\n    text of t1\nTAG @t2\n  Description\n  (\n    text of t2\n  )\nTAG @t3\n'
@@ -280,6 +284,14 @@ def main(tier):
             if dupk and all(k.startswith("json-rpc-2.0 ") and any(" " in i["method"] or " " in i["path"] for i in rec["inters"] if i["key"] == k) for k in dupk) \
                     and set(rec["dupkeys"]) <= set(dupk):
                 detail = "jsonrpc-id-with-space"
+            try:
+                srcb = b"".join(common.unb64(v) for v in texts[cid]["files"].values())
+                srcb.decode("utf-8")
+            except UnicodeDecodeError:
+                if dupk or rec["dupkeys"]:
+                    detail = "invalid-utf8-in-a-name"
+            except Exception:
+                pass
             sig = {"what": p, "driver": kind, "detail": detail}
             src = texts[cid]
             chk.violation("accepted project whose catalog is not self-consistent: %s | case %s (%s)" % (p, cid, kind),
